@@ -19,7 +19,6 @@ func c17(tier string) int {
 			{Family: "dirs", Params: "depth=5,limits=7.101,roots=1.2,layouts=one"},
 			{Family: "dirs", Params: "depth=4,limits=7.101,roots=1.2,layouts=two.both"},
 			{Family: "dirs", Params: "depth=3,limits=0.1.99.100,roots=1.2"},
-			
 		}
 	}
 	return enumCheck("C17", tier, 120*time.Second, 20*time.Minute, plans,
